@@ -73,6 +73,24 @@ def drive(ctx):
                     for (p0, p1, pt, ab) in ((x, y, mid, False), (y, x, mid, False), (y, x, mid, True), (x, mid, y, False),
                                              (x, y, x, False), (x, y, y, True)):
                         ctx.emit("contains", {"abs": ab}, pre_objs=[p0, p1, pt])
+    # containment with an end-point inside a repeated hour and probes from OTHER zones just around it
+    for zn in ctx.mine(names):
+        zr = {"n": zn, "fo": 0}
+        ovs = [t for t in zone_transitions(ctx, zn) if t[2] < t[1] and LO + 10 ** 6 < t[0] < HI - 10 ** 6]
+        for (sec, b_, a_) in pick(rnd, ovs, 1 if q else 6):
+            g = b_ - a_
+            e_s, s_s = sec - g // 2, sec - 86400
+            S = ctx.emit("in_tz", {"tz": zr}, [mk_dt(UTCZ, i3_to_wall(sec_to_i3(s_s, 0)), 0)], log=False)
+            E = ctx.emit("in_tz", {"tz": zr}, [mk_dt(UTCZ, i3_to_wall(sec_to_i3(e_s, 0)), 0)], log=False)
+            if isinstance(S, Exception) or isinstance(E, Exception):
+                continue
+            other = {"n": rnd.choice(names), "fo": 0}
+            for ps in (e_s + 1, e_s + g // 2 + 5, e_s - 1, e_s + g + 10, s_s - 1, s_s, e_s):
+                for pz in (UTCZ, other, {"n": "", "fo": 19800}):
+                    P = ctx.emit("in_tz", {"tz": pz}, [mk_dt(UTCZ, i3_to_wall(sec_to_i3(ps, 0)), 0)], log=False)
+                    if not isinstance(P, Exception):
+                        ctx.emit("contains", {"abs": False}, pre_objs=[S, E, P])
+                        ctx.emit("contains", {"abs": True}, pre_objs=[E, S, P])
     # iteration by days, long ranges, naive, dates, random
     for k in range(40 if q else 500):
         s1 = rnd.randrange(LO + 86400 * 400, HI - 86400 * 365 * 40)
